@@ -624,3 +624,24 @@ package tree
 //@   ensures [look_ups_by_name_reflect_the_pruned_tip_set] result == nil ==> ghost(tipindex_stale) == 0
 //@   loop 1
 //@     invariant [names_collected] namemap != nil && (forall k int :: {names[k]} 0 <= k && k <= rangeindex ==> has(namemap, names[k]))
+
+// ---------------------------------------------------------------------------
+// Branch enumerations (property C03): InternalEdges lists inner branches only,
+// TipEdges lists tip branches only
+// ---------------------------------------------------------------------------
+
+//@ func (*tree.Tree).internalEdgesRecur
+//@   flag noframe
+//@   requires t != nil && edge != nil && edges != nil
+//@   ensures [the_listed_prefix_is_kept] len(*edges) >= old(len(*edges)) && (forall k int :: {(*edges)[k]} {old((*edges)[k])} 0 <= k && k < old(len(*edges)) ==> (*edges)[k] == old((*edges)[k]))
+//@   ensures [every_appended_branch_is_internal] forall k int :: {(*edges)[k]} old(len(*edges)) <= k && k < len(*edges) ==> (*edges)[k] != nil && (*edges)[k].right != nil && len((*edges)[k].right.neigh) != 1
+//@   loop 1
+//@     invariant [the_listed_prefix_is_kept] len(*edges) >= old(len(*edges)) && (forall k int :: {(*edges)[k]} 0 <= k && k < old(len(*edges)) ==> (*edges)[k] == old((*edges)[k]))
+//@     invariant [every_appended_branch_is_internal] forall k int :: {(*edges)[k]} old(len(*edges)) <= k && k < len(*edges) ==> (*edges)[k] != nil && (*edges)[k].right != nil && len((*edges)[k].right.neigh) != 1
+
+//@ func (*tree.Tree).InternalEdges
+//@   flag noframe
+//@   requires t != nil
+//@   ensures [only_internal_branches] forall k int :: {result[k]} 0 <= k && k < len(result) ==> result[k] != nil && result[k].right != nil && len(result[k].right.neigh) != 1
+//@   loop 1
+//@     invariant [only_internal_branches_so_far] forall k int :: {edges[k]} 0 <= k && k < len(edges) ==> edges[k] != nil && edges[k].right != nil && len(edges[k].right.neigh) != 1
